@@ -9,17 +9,26 @@
    [vrow gs i] are the float64 values the model of polyform's readers must deliver for vertex i:
    float -> widening of the stored word, uchar -> round(255 x)/255 through the division table, double -> the word.
 
-   Mesh level: [ply_roundtrip_*] below state  read_mesh file = Ok mesh  for the file the writer model emits (given
-   in closed form; [ply_writer_emits] and [ply_face_records_emitted] show these ARE the writer's vertex block and face
-   records) under the decidable side condition [readers_ok]: ply.ReadMesh builds on the written property list exactly
-   the readers laid out on the groups.  [ply_readers_default] discharges it for every subset of ply.Write's own
-   table (256 cases by computation), [ply_readers_default_user] for that table followed by user-named scalars; for
-   custom tables (and the per-vertex s/t TexCoord of a point cloud, which the reader places before the splat groups)
-   it is evaluated per generated case by Check/C04.v ([corr_one]: read_mesh file = implementation result = expected o m).  NOT proved: that
-   [write o f m] as a whole equals the closed-form file and that [expected o m] equals the right-hand sides (both are
-   checked on every case, and on [ply_example] below); hence the block theorems keep the suffix _partial and the
-   single full statement stays in this comment:
-     forall o m f, wf_mesh m = true -> exists file, write o f m = Ok file /\ read_mesh file = expected o m.          *)
+   Headline: [ply_roundtrip_ascii], [ply_roundtrip_le], [ply_roundtrip_be] — for ply.Write's property-writer table
+   (WriteUnspecifiedProperties on or off), every mesh accepted by [wf_mesh] (point cloud or triangle mesh; welded or
+   not; unreferenced vertices; any mix of Position/Normal/Color/FDC/Opacity/Scale/Rotation, user-named attributes of
+   dimension 1-4, per-corner texture coordinates of triangle meshes):
+       write o f m = Ok file,  expected o m = Ok r,  read_mesh file = Ok r
+   where [write] is the model of MeshWriter.Write, [read_mesh] the model of ply.ReadMesh (Formats/PlyRead.v) and
+   [expected] the stored image of m (float32 words widened, colours as round(255x)/255, user vector attributes as
+   their scalar columns name_k, unwelded when the mesh has UVs and at least one face).  [ply_encodings_agree] is
+   the corollary for the three files.  Two explicit hypotheses remain, both decidable:
+   * [no_st m] — the mesh is not a point cloud carrying TexCoord.  Such a cloud gets per-vertex properties s, t
+     (fix ad4b3e5) whose reader ply.ReadMesh places BEFORE the splat groups, so the reader's attribute list is a
+     permutation of the writer-order list [expected] uses.  Proved for that class: the file in closed form
+     ([ply_roundtrip_points_st_partial]).  Missing lemma: `build_readers` on a property list with s/t among the
+     unclaimed scalars is a permutation p of `layout`, and `read_bin_row/read_ascii_row/update_mesh` commute with p
+     (mesh equal up to attribute order).  Checked on every generated case by Check/C04.v ([mesh_eqb] ignores order).
+   * ASCII only: the configuration writes at least one vertex property when n >= 1 (otherwise known finding
+     ply:ascii-vertex-without-properties: [ascii_ok] cannot hold, the encodings really disagree).
+   Custom writer tables: the same statement holds for ANY table under decidable side conditions
+   ([ply_roundtrip_any_table]: the reader builds the laid-out readers, attribute keys distinct, values storable);
+   the 8-bit scalar case is refuted ([ascii_uchar_scalar_refuted], known finding ply:ascii-uchar-scalar-raw). *)
 From PF Require Import Base.Bytes Formats.PlyRead Formats.PlyWrite Formats.PlyWriteProofs.
 From Coq Require Import String.
 Open Scope list_scope.
@@ -34,7 +43,7 @@ Print Assumptions ply_header_roundtrip.
 
 (* ---- vertex element, binary (e = LEnd / BEnd): reading the n written records with the laid-out readers returns,
         for every vertex in order, the stored image of every group, and consumes exactly the vertex block ---- *)
-Theorem ply_roundtrip_le_partial : forall n gs rest, Forall (group_good n) gs ->
+Theorem ply_vertex_block_le : forall n gs rest, Forall (group_good n) gs ->
   read_vertices_bin LEnd (layout true gs 0) (record_size (vertex_props gs)) n
     (flat_map (fun i => flat_map (fun g => genc LEnd g i) gs) (seq 0 n) ++ rest)
   = Ok (map (vrow gs) (seq 0 n), rest).
@@ -42,9 +51,9 @@ Proof.
   intros n gs rest H. rewrite record_size_props.
   pose proof (read_vertices_bin_written LEnd n gs n rest H (le_n n)) as R. rewrite Nat.sub_diag in R. exact R.
 Qed.
-Print Assumptions ply_roundtrip_le_partial.
+Print Assumptions ply_vertex_block_le.
 
-Theorem ply_roundtrip_be_partial : forall n gs rest, Forall (group_good n) gs ->
+Theorem ply_vertex_block_be : forall n gs rest, Forall (group_good n) gs ->
   read_vertices_bin BEnd (layout true gs 0) (record_size (vertex_props gs)) n
     (flat_map (fun i => flat_map (fun g => genc BEnd g i) gs) (seq 0 n) ++ rest)
   = Ok (map (vrow gs) (seq 0 n), rest).
@@ -52,12 +61,12 @@ Proof.
   intros n gs rest H. rewrite record_size_props.
   pose proof (read_vertices_bin_written BEnd n gs n rest H (le_n n)) as R. rewrite Nat.sub_diag in R. exact R.
 Qed.
-Print Assumptions ply_roundtrip_be_partial.
+Print Assumptions ply_vertex_block_be.
 
 (* ---- vertex element, ASCII: token lines; [ascii_ok] excludes the 8-bit scalar read through
         Vector1PropertyReader (known finding ply:ascii-uchar-scalar-raw, see ascii_uchar_scalar_refuted) ---- *)
-Theorem ply_roundtrip_ascii_partial : forall n gs rest,
-  Forall (group_good n) gs -> forallb ascii_ok gs = true -> vertex_props gs <> [] ->
+Theorem ply_vertex_block_ascii : forall n gs rest,
+  Forall (group_good n) gs -> forallb ascii_ok gs = true -> (n = 0%nat \/ vertex_props gs <> []) ->
   read_vertices_ascii (layout false gs 0) (List.length (vertex_props gs))
     (map (fun i => flat_map (fun g => gtoks g i) gs) (seq 0 n) ++ rest) n
   = Ok (map (vrow gs) (seq 0 n), rest).
@@ -65,7 +74,7 @@ Proof.
   intros n gs rest H A N.
   pose proof (read_vertices_ascii_written n gs n rest H A N (le_n n)) as R. rewrite Nat.sub_diag in R. exact R.
 Qed.
-Print Assumptions ply_roundtrip_ascii_partial.
+Print Assumptions ply_vertex_block_ascii.
 
 (* the closed forms used above ARE what the writer model emits *)
 Theorem ply_writer_emits : forall n gs, Forall (group_good n) gs ->
@@ -76,7 +85,7 @@ Print Assumptions ply_writer_emits.
 
 (* ---- the three encodings of one vertex table decode to the same rows ---- *)
 Theorem ply_encodings_agree : forall n gs,
-  Forall (group_good n) gs -> forallb ascii_ok gs = true -> vertex_props gs <> [] ->
+  Forall (group_good n) gs -> forallb ascii_ok gs = true -> (n = 0%nat \/ vertex_props gs <> []) ->
   exists rows,
     read_vertices_bin LEnd (layout true gs 0) (record_size (vertex_props gs)) n
       (flat_map (fun i => flat_map (fun g => genc LEnd g i) gs) (seq 0 n)) = Ok (rows, []) /\
@@ -86,8 +95,8 @@ Theorem ply_encodings_agree : forall n gs,
       (map (fun i => flat_map (fun g => gtoks g i) gs) (seq 0 n)) n = Ok (rows, []).
 Proof.
   intros n gs H A N. exists (map (vrow gs) (seq 0 n)).
-  pose proof (ply_roundtrip_le_partial n gs [] H) as L. pose proof (ply_roundtrip_be_partial n gs [] H) as B.
-  pose proof (ply_roundtrip_ascii_partial n gs [] H A N) as C. rewrite app_nil_r in L, B, C. auto.
+  pose proof (ply_vertex_block_le n gs [] H) as L. pose proof (ply_vertex_block_be n gs [] H) as B.
+  pose proof (ply_vertex_block_ascii n gs [] H A N) as C. rewrite app_nil_r in L, B, C. auto.
 Qed.
 Print Assumptions ply_encodings_agree.
 
@@ -163,7 +172,7 @@ Proof. exact read_mesh_pointcloud_bin. Qed.
 Print Assumptions ply_roundtrip_bin_points.
 
 Theorem ply_roundtrip_ascii_points : forall gs m, w_topo m = TPoint ->
-  Forall (group_good (w_n m)) gs -> forallb ascii_ok gs = true -> vertex_props gs <> [] -> readers_ok false gs ->
+  Forall (group_good (w_n m)) gs -> forallb ascii_ok gs = true -> (w_n m = 0%nat \/ vertex_props gs <> []) -> readers_ok false gs ->
   read_mesh {| pf_header := header_lines ASCII (header_elems gs m);
                pf_body := BodyAscii (map (fun i => flat_map (fun g => gtoks g i) gs) (seq 0 (w_n m))) |}
   = Ok {| m_topo := TPoint; m_idx := iota (w_n m);
@@ -186,7 +195,7 @@ Print Assumptions ply_roundtrip_bin_triangles.
 
 Theorem ply_roundtrip_ascii_triangles : forall gs m, w_topo m = TTriangle -> has_tex m = false ->
   (List.length (w_idx m) mod 3 = 0)%nat ->
-  Forall (group_good (w_n m)) gs -> forallb ascii_ok gs = true -> vertex_props gs <> [] -> readers_ok false gs ->
+  Forall (group_good (w_n m)) gs -> forallb ascii_ok gs = true -> (w_n m = 0%nat \/ vertex_props gs <> []) -> readers_ok false gs ->
   read_mesh {| pf_header := header_lines ASCII (header_elems gs m);
                pf_body := BodyAscii (map (fun i => flat_map (fun g => gtoks g i) gs) (seq 0 (w_n m))
                                      ++ map line_notex (tris (w_idx m))) |}
@@ -211,7 +220,7 @@ Print Assumptions ply_roundtrip_bin_triangles_uv.
 
 Theorem ply_roundtrip_ascii_triangles_uv : forall gs m fts, w_topo m = TTriangle -> has_tex m = true ->
   (List.length (w_idx m) mod 3 = 0)%nat -> map fst fts = tris (w_idx m) -> Forall (fun tu => List.length (snd tu) = 6%nat) fts ->
-  Forall (group_good (w_n m)) gs -> forallb ascii_ok gs = true -> vertex_props gs <> [] -> readers_ok false gs ->
+  Forall (group_good (w_n m)) gs -> forallb ascii_ok gs = true -> (w_n m = 0%nat \/ vertex_props gs <> []) -> readers_ok false gs ->
   read_mesh {| pf_header := header_lines ASCII (header_elems gs m);
                pf_body := BodyAscii (map (fun i => flat_map (fun g => gtoks g i) gs) (seq 0 (w_n m)) ++ map line_tex fts) |}
   = mesh_of TTriangle (zidx (w_idx m)) (flat_map (fun tu => pairs (map cvF (snd tu))) fts)
@@ -241,6 +250,72 @@ Theorem ply_readers_default_user : forall bin m (sel : pw -> bool) tail,
   readers_ok bin (map (group_of m) (filter sel default_writers) ++ tail).
 Proof. exact readers_ok_default_user. Qed.
 Print Assumptions ply_readers_default_user.
+
+(* ================= the whole file ================= *)
+(* for any writer table, under decidable side conditions *)
+Theorem ply_roundtrip_any_table : forall o f m,
+  let gw := map (group_of m) (effective_writers o m) in
+  let gr := rview o m in
+  Forall (group_good (w_n m)) gw -> readers_ok (is_bin f) gr -> keys_ok [] gr = true ->
+  (w_n m = 0%nat -> effective_writers o m = []) ->
+  (f = ASCII -> forallb ascii_ok gr = true /\ (w_n m = 0%nat \/ vertex_props gr <> [])) ->
+  (w_topo m = TTriangle -> (List.length (w_idx m) mod 3 = 0)%nat /\ Forall tri_ok (tris (w_idx m))) ->
+  (has_tex m = true -> tex_ok m) ->
+  exists file, write o f m = Ok file /\ read_mesh file = expected o m.
+Proof. exact write_read_expected. Qed.
+Print Assumptions ply_roundtrip_any_table.
+
+(* ply.Write's table, every well-formed mesh *)
+Theorem ply_roundtrip_ascii : forall o m, o_writers o = default_writers -> wf_mesh m = true -> no_st m ->
+  (w_n m = 0%nat \/ vertex_props (rview o m) <> []) ->
+  exists file r, write o ASCII m = Ok file /\ expected o m = Ok r /\ read_mesh file = Ok r.
+Proof. intros o m Ho Hwf C Hne. apply ply_write_read_default; auto. Qed.
+Print Assumptions ply_roundtrip_ascii.
+
+Theorem ply_roundtrip_le : forall o m, o_writers o = default_writers -> wf_mesh m = true -> no_st m ->
+  exists file r, write o BinLE m = Ok file /\ expected o m = Ok r /\ read_mesh file = Ok r.
+Proof. intros o m Ho Hwf C. apply ply_write_read_default; auto. discriminate. Qed.
+Print Assumptions ply_roundtrip_le.
+
+Theorem ply_roundtrip_be : forall o m, o_writers o = default_writers -> wf_mesh m = true -> no_st m ->
+  exists file r, write o BinBE m = Ok file /\ expected o m = Ok r /\ read_mesh file = Ok r.
+Proof. intros o m Ho Hwf C. apply ply_write_read_default; auto. discriminate. Qed.
+Print Assumptions ply_roundtrip_be.
+
+(* ASCII, little-endian and big-endian files of one mesh decode to the same mesh *)
+Theorem ply_encodings_agree_mesh : forall o m, o_writers o = default_writers -> wf_mesh m = true -> no_st m ->
+  (w_n m = 0%nat \/ vertex_props (rview o m) <> []) ->
+  exists fa fl fb r, write o ASCII m = Ok fa /\ write o BinLE m = Ok fl /\ write o BinBE m = Ok fb /\
+                     read_mesh fa = Ok r /\ read_mesh fl = Ok r /\ read_mesh fb = Ok r /\ expected o m = Ok r.
+Proof. exact ply_encodings_agree_default. Qed.
+Print Assumptions ply_encodings_agree_mesh.
+
+(* pieces of the composition worth reading on their own *)
+(* user vector attributes: their scalar columns carry the same header lines, bytes and tokens *)
+Theorem ply_vector_attributes_as_columns : forall n m ws, Forall (group_good n) (map (group_of m) ws) ->
+  vertex_props (flat_map (rview_of m) ws) = vertex_props (map (group_of m) ws) /\
+  Forall (group_good n) (flat_map (rview_of m) ws) /\
+  forall i, (i < n)%nat ->
+    flat_map (fun g => gwords g i) (flat_map (rview_of m) ws) = flat_map (fun g => gwords g i) (map (group_of m) ws) /\
+    flat_map (fun g => gtoks g i) (flat_map (rview_of m) ws) = flat_map (fun g => gtoks g i) (map (group_of m) ws).
+Proof. exact rview_same. Qed.
+Print Assumptions ply_vector_attributes_as_columns.
+
+(* [expected] is the right-hand side of the mesh-level theorems *)
+Theorem ply_expected_is_result : forall o m bin, let gs := rview o m in
+  Forall (group_good (w_n m)) gs -> keys_ok [] gs = true -> (w_n m = 0%nat -> gs = []) ->
+  (w_topo m = TTriangle -> (List.length (w_idx m) mod 3 = 0)%nat) -> (has_tex m = true -> tex_ok m) ->
+  expected o m = result_mesh bin gs m.
+Proof. exact expected_result. Qed.
+Print Assumptions ply_expected_is_result.
+
+(* what is proved for point clouds with per-vertex s/t (outside [no_st]): the written file, in closed form *)
+Theorem ply_roundtrip_points_st_partial : forall o f m, o_writers o = default_writers -> wf_mesh m = true ->
+  (f = ASCII -> w_n m = 0%nat \/ effective_writers o m <> []) ->
+  write o f m = Ok {| pf_header := header_lines f (header_elems (map (group_of m) (effective_writers o m)) m);
+                      pf_body := closed_body f (map (group_of m) (effective_writers o m)) m |}.
+Proof. exact write_closed_default. Qed.
+Print Assumptions ply_roundtrip_points_st_partial.
 
 (* ---- the known finding, as a statement about the reader model: an 8-bit scalar comes back raw from ASCII ---- *)
 Theorem ascii_uchar_scalar_refuted :
